@@ -51,6 +51,9 @@ def bases(tier):
                         "tasks": [T("a", 100, prio=300), T("b", 100, prio=700), {"id": "c", "effort": 120, "alloc": ["r1", "r2"], "prio": 500}]})
             out.append({"L": L, "alap": alap, "resources": rs,
                         "tasks": [T("a", 240, limits={"dailymax": "2h"}), T("b", 90, alt=["r2"], prio=300), T("c", 120, limits={"weeklymax": "1h"})]})
+            out.append({"L": L, "alap": alap, "resources": rs,
+                        "tasks": [T("w", 200), {"id": "g", **({"end": "2025-01-20-17:00"} if alap else {"start": "2025-01-09-09:00"}),
+                                                "children": [T("x", 90, deps=["w"]), T("y", 120, "r2", deps=["!x"])]}]})
             if tier == "thorough":
                 out.append({"L": L, "alap": alap, "resources": [{"id": "r1", "eff": 0.7}, {"id": "r2"}],
                             "tasks": [T("a", 50), T("b", 20, deps=["a"]), T("c", 45, deps=["b"]), T("d", 30)]})
@@ -80,6 +83,7 @@ def overrides_for(base):
         else:
             outs.append((tid, "start", "2025-01-08-10:00"))
             outs.append((tid, "start", "2025-06-02-09:00"))   # beyond the project end: unschedulable in that scenario only
+            outs.append((tid, "start", "2025-01-06-09:00"))   # a pin EARLIER than the task's dependency bound (a pin overrides it, a bound would not)
     return outs
 
 
